@@ -227,3 +227,42 @@ func HarnessCallStartedTwice() {
 	}
 	vrt.Assert(left == 0, "every-awaited-call-is-collected-exactly-once")
 }
+
+// A weight at which a call is only awaited (nothing is triggered there) and a hook triggered at a greater weight
+// of the same moment: the later hook starts only after the awaited call was collected. The awaited call was started
+// at an earlier moment or at a lower weight of the same moment.
+//verif:entry HarnessAwaitOnlyWeight unwind=64 preempt=1 reach=ordered stub=github.com/AliceO2Group/Control/common/utils.TimeTrack nosched=github.com/AliceO2Group/Control/core/the.mu
+func HarnessAwaitOnlyWeight() {
+	m := vrt.IntRange("moment", 0, 3)
+	negative := vrt.Bool("negative.half") // await at -5 and later hook at -2, or await at +0 and later hook at +7
+	awaitAt, laterAt := c08Moments[m]+"+0", c08Moments[m]+"+7"
+	if negative {
+		awaitAt, laterAt = c08Moments[m]+"-5", c08Moments[m]+"-2"
+	}
+	trigger := "before_CONFIGURE-9" // before everything else
+	rec := &fenvRec{}
+	rec.onCall = func(c *callable.Call) error {
+		if c.GetName() == "root.early" {
+			<-time.After(50 * time.Millisecond) // takes a while: returns when the state machine has nothing left to do but wait for it
+		}
+		return nil
+	}
+	env := fenvNew(&fenvConf{}, rec, "DEPLOYED", []fenvHook{
+		{name: "early", trigger: trigger, await: awaitAt, critical: true},
+		{name: "late", trigger: laterAt, critical: true},
+	})
+	err := env.TryTransition(fenvTransition{name: "CONFIGURE", rec: rec})
+	vrt.Assert(err == nil && env.CurrentState() == "CONFIGURED", "transition-with-successful-hooks-succeeds")
+	launched, collected := rec.index("launch:root.late"), rec.index("call:root.early:end")
+	vrt.Assert(launched >= 0 && collected >= 0, "both-hooks-ran")
+	left := 0
+	for _, byWeight := range env.callsPendingAwait {
+		for _, calls := range byWeight {
+			left += len(calls)
+		}
+	}
+	vrt.Assert(left == 0, "every-awaited-call-is-collected-exactly-once")
+	// the state machine reaches laterAt only after it passed awaitAt, where it waits for the early call to return
+	vrt.Assert(collected < launched, "later-hook-starts-only-after-an-earlier-await-point-was-passed")
+	vrt.Reach("ordered")
+}
